@@ -25,5 +25,8 @@ EnvSets == [
                E3(Q(1, 1), Q(0, 1), Q(-3, 2)),
                E3(Q(2, 1), Q(5, 1), Q(5, 2)),
                E3(Q(-1, 1), Q(4, 1), Q(-1, 2)) >>,
-  none |-> << E3(Q(2, 1), Q(3, 1), Q(5, 1)) >> ]
+  none |-> << E3(Q(2, 1), Q(3, 1), Q(5, 1)) >>,
+  \* every sign / order / membership cell of the atoms used by the logic cases
+  logic |-> [i \in 1..25 |-> LET vs == <<Q(0, 1), Q(1, 1), Q(2, 1), Q(1, 2), Q(3, 1)>>
+                              IN E3(vs[((i - 1) \div 5) + 1], vs[((i - 1) % 5) + 1], Q(1, 1))] ]
 =============================================================================
